@@ -17,7 +17,8 @@
 //!       V(x) the verifier's expression; `dom` for a point of the trace domain (the definition is a
 //!       quotient there); `invalid` when the trace does not satisfy the description; `bad-op`.
 //!       The Lean driver computes the same line from the model (definition + prover pipeline + verifier
-//!       expression) for explicit data of the base fields and answers `-` otherwise.
+//!       expression) for explicit data (base fields and extensions, no Lagrange kernel column) and
+//!       answers `-` otherwise.
 //!   ood <field> <q.b.g.x.f.r> <seed> <AirDesc>
 //!       a real proof (`GenericProver` with a recording coin), the real `verify`; z and all coefficients
 //!       are what the verifier's coin produced; the proof's OOD frame and OOD constraint evaluations
@@ -1386,6 +1387,33 @@ fn boundary_ops(rng: &mut Rng, tier: Tier, emit: &mut dyn FnMut(String)) {
             }
         }
     }
+    // ---- high degrees: ce blowup 16 (degree 17) and, thorough, 32 (degree 33)
+    for (n, deg) in [(8usize, 16u32), (8, 17), (16, 17)] {
+        let d = seq_desc(n, deg, vec![], vec![AssertDesc::single(0, 1)], 1, 1);
+        emit(def_line(FieldId::F64, 2, 16, &format!("s{}.2", rng.below(1000)), &d));
+        emit(def_line(FieldId::F128, 1, 32, &format!("s{}.2", rng.below(1000)), &d));
+    }
+    if thorough {
+        let d = seq_desc(8, 33, vec![], vec![AssertDesc::single(0, 1)], 1, 2);
+        emit(def_line(FieldId::F62, 1, 32, &format!("s{}.2", rng.below(1000)), &d));
+    }
+    // ---- one divisor shared by a sequence, a periodic and (aux) a sequence assertion: one group
+    for (n, stride, first) in [(16usize, 4usize, 1usize), (128, 2, 1), (64, 8, 0)] {
+        let mut d = seq_desc(n, 2, vec![], vec![AssertDesc::sequence(0, first, stride), AssertDesc::periodic(1, first, stride), AssertDesc::single(2, first + 1)], 3, 1);
+        d.cols[1] = ColGen::Cyc(stride);
+        let d2 = with_aux(d.clone(), Some((first, stride)), false);
+        for field in FieldId::ALL {
+            emit(def_line(field, *rng.pick(&exts(field)), 4, &format!("s{}.3", rng.below(1000)), &d));
+            emit(def_line(field, *rng.pick(&exts(field)), 2, &format!("s{}.3", rng.below(1000)), &d2));
+        }
+        if n <= 16 {
+            for field in FieldId::ALL {
+                if let Some(l) = explicit_line(field, 1, 2, rng.below(1000), 2, &d2) {
+                    emit(l);
+                }
+            }
+        }
+    }
     // ---- real proofs: the verifier's own evaluate_constraints on the opened frame
     let oods = [
         (seq_desc(16, 2, vec![per(rng, 2), per(rng, 8)], vec![AssertDesc::single(0, 0), AssertDesc::sequence(1, 1, 2)], 2, 1), 4usize),
@@ -1416,7 +1444,7 @@ impl Prop for P {
     }
 
     fn gen(&self, rng: &mut Rng, tier: Tier, n: usize, emit: &mut dyn FnMut(String)) {
-        let n = default_n(tier, 3000, 30000, n);
+        let n = default_n(tier, 2600, 26000, n);
         boundary_ops(rng, tier, emit);
         let mut big = big_explicit_ops(rng, tier);
         let every = (n / (big.len() + 1)).max(1);
@@ -1444,7 +1472,9 @@ impl Prop for P {
             let lb = *rng.pick(&blowups(&d, if small { 256 } else { 2048 }));
             let seed = rng.below(1_000_000);
             let ce = d.trace_len * d.min_blowup();
-            if small && ext == 1 && (ce <= 64 || (ce <= 256 && i % 12 == 0)) {
+            // extension-field arithmetic on raw words is several times dearer for the model
+            let cap = if ext == 1 { 64 } else { 32 };
+            if small && (ce <= cap || (ext == 1 && ce <= 256 && i % 12 == 0)) {
                 // explicit data: compared with the Lean model (whose cost grows with ce^2)
                 if let Some(l) = explicit_line(field, ext, lb, seed, 2, &d) {
                     emit(l);
